@@ -645,18 +645,13 @@ class CSSStyleDeclaration(CSS2Properties, cssutils.util.Base2):
 
         if newp.wellformed:
             if replace:
-                # check if update
-                nname = self._normalize(name)
-                properties = self.getProperties(name, all=(not normalize))
-                for property in reversed(properties):
-                    if normalize and property.name == nname:
-                        property.propertyValue = newp.propertyValue.cssText
-                        property.priority = newp.priority
-                        return
-                    elif property.literalname == name:
-                        property.propertyValue = newp.propertyValue.cssText
-                        property.priority = newp.priority
-                        return
+                # check if update: the effective property (for the literal
+                # name if not normalized) is the one to change
+                property = self.getProperty(name, normalize)
+                if property is not None:
+                    property.propertyValue = newp.propertyValue.cssText
+                    property.priority = newp.priority
+                    return
 
             # not yet set or forced omit replace
             newp.parent = self
